@@ -1,13 +1,14 @@
 import Gv.Model.Clean
+import Gv.Proofs.CleanSeqs
 /-!
-# C12 — cleaning removes exactly the sites that meet the cutoff
+# C12 — cleaning removes exactly the sites and sequences that meet the cutoff
 
 `q : List Bool` says, site by site, whether the site meets the cutoff (`test nb total` on the counts of
 `siteCounts`, or on the majority counts).  The theorems are about the tracker loop and the removal pass
 of `lean/Gv/Model/Clean.lean`, for every `q` (hence every alignment, cutoff and option set).
 -/
 namespace Gv.Props.C12
-open Gv Gv.Model
+open Gv Gv.Model Gv.Proofs.BagInv Gv.Proofs.CleanSeqs
 
 /-- length of the maximal all-true prefix / suffix -/
 def prefixRun (q : List Bool) : Nat := (q.takeWhile id).length
@@ -219,6 +220,18 @@ theorem removeCharacterSites_unfold (test : Nat → Nat → Bool) (rows : CRows)
   have : ¬ ((L : Int) < 0) := by omega
   simp [this]
 
+/-- the qualification list used by `RemoveMajorityCharacterSites` is the cutoff test on the majority
+counts of `MaxCharStats` (C14: independent of the map iteration order), computed with the wildcard of
+the alignment's own alphabet; every theorem above about `removeSites` applies to it unchanged -/
+theorem removeMajoritySites_unfold (test : Nat → Nat → Bool) (rows : CRows) (L : Nat) (alphabet : Nat)
+    (ends ig iN : Bool) :
+    removeMajoritySites test rows (L : Int) alphabet ends ig iN =
+      removeSites rows L ((List.range L).map fun j =>
+        test (maxCharSite alphabet ig iN (columnAt rows j)).2.1 (maxCharSite alphabet ig iN (columnAt rows j)).2.2) ends := by
+  unfold removeMajoritySites
+  have : ¬ ((L : Int) < 0) := by omega
+  simp [this]
+
 /-- the wildcard follows the alphabet: `X`/`x` for proteins, `N`/`n` otherwise -/
 theorem wildcard_follows_alphabet :
     wildcard AMINOACIDS = (88, 120) ∧ wildcard NUCLEOTIDS = (78, 110) ∧ wildcard UNKNOWN = (78, 110) := by decide
@@ -228,5 +241,118 @@ theorem wildcard_follows_alphabet :
 example : prefixRun [true, true, false, true, true, false, true] = 2 ∧ suffixRun [true, true, false, true, true, false, true] = 1 := by decide
 example : (removeSites [("a", [65, 65, 65, 65, 65, 65, 65])] 7 [true, true, false, true, true, false, true] true).removed = [0, 1, 6] := by decide
 example : (removeSites [("a", [65, 65])] 2 [true, true] true).first = 2 ∧ (removeSites [("a", [65, 65])] 2 [true, true] true).last = 2 := by decide
+
+/-! ## the per-sequence variant: `RemoveCharacterSeqs` / `RemoveGapSeqs`
+
+`AlignWF b`: `b` is an alignment whose rows are uniquely named and all have the cached length (the C01
+invariant).  `seqCounts s c alphabet ic ig iN` are the counts of `siteCounts` (the site variant above)
+with the sequence in the role of the column: number of characters equal to `c` (case folded with `ic`),
+and number of characters not excluded by the ignore-gaps / ignore-N-or-X options **of the alignment's
+own alphabet**.  `meets test … s` is the cutoff test on these counts. -/
+
+/-- the counting loop of `RemoveCharacterSeqs` computes `seqCounts` (hence the same counts as the site
+variant, with the wildcard of the alignment's own alphabet) -/
+theorem seqCounts_spec (s : Seq) (c : Byte) (alphabet : Nat) (ic ig iN : Bool) :
+    seqCounts s c alphabet ic ig iN =
+      ((s.filter fun x => x == c || (ic && toLower x == toLower c)).length,
+       (s.filter fun x => !(ig && x == GAP) && !(iN && (x == (wildcard alphabet).1 || x == (wildcard alphabet).2))).length) :=
+  seqCounts_eq s c alphabet ic ig iN
+
+/-- **`RemoveCharacterSeqs` on a well-formed alignment never panics** (the site loop stays inside every row) -/
+theorem removeCharacterSeqs_never_panics (test : Nat → Nat → Bool) (c : Byte) (ic ig iN : Bool) (b : Bag)
+    (hw : AlignWF b) : (removeCharacterSeqs test c ic ig iN b).isSome = true := by
+  obtain ⟨b', h, _⟩ := removeCharacterSeqs_eval test c ic ig iN b hw
+  rw [h]; rfl
+
+/-- **A sequence is removed iff it meets the cutoff; the others are kept in order, untouched.**
+The rows of the result (names and sequences) are exactly the rows of the input that do not meet the
+cutoff, in the input order; a row of the input is in the result iff it does not meet the cutoff; the
+returned count is the number of rows that meet it. -/
+theorem seq_removed_iff (test : Nat → Nat → Bool) (c : Byte) (ic ig iN : Bool) (b b' : Bag) (k : Nat)
+    (hw : AlignWF b) (h : removeCharacterSeqs test c ic ig iN b = some (b', k)) :
+    pairs b' = (pairs b).filter (fun p => !meets test c b.alphabet ic ig iN p.2) ∧
+    (∀ p ∈ pairs b, (p ∈ pairs b' ↔ meets test c b.alphabet ic ig iN p.2 = false)) ∧
+    k = ((pairs b).filter fun p => meets test c b.alphabet ic ig iN p.2).length ∧
+    k + b'.rows.length = b.rows.length := by
+  obtain ⟨b'', h', hp, _⟩ := removeCharacterSeqs_eval test c ic ig iN b hw
+  rw [h'] at h
+  simp only [Option.some.injEq, Prod.mk.injEq] at h
+  obtain ⟨e1, e2⟩ := h
+  subst e1
+  refine ⟨hp, ?_, e2.symm, ?_⟩
+  · intro p hpm
+    rw [hp, List.mem_filter]
+    simp [hpm]
+  · have h1 := length_filter_add (pairs b) (fun p => meets test c b.alphabet ic ig iN p.2)
+    have h2 : b''.rows.length = (pairs b'').length := by simp [pairs]
+    have h3 : b.rows.length = (pairs b).length := by simp [pairs]
+    rw [h2, h3, hp, ← e2]; exact h1
+
+/-- **The result is again a well-formed alignment** of the same alphabet and policy: unique names, every
+kept row of the old length, cached length `-1` iff nothing is kept; the name index satisfies the
+container invariant of C01. -/
+theorem seqs_result_wellformed (test : Nat → Nat → Bool) (c : Byte) (ic ig iN : Bool) (b b' : Bag) (k : Nat)
+    (hw : AlignWF b) (h : removeCharacterSeqs test c ic ig iN b = some (b', k)) :
+    AlignWF b' ∧ Inv b' ∧ b'.alphabet = b.alphabet ∧ b'.policy = b.policy ∧
+    b'.length = (if b'.rows = [] then -1 else b.length) := by
+  obtain ⟨b'', h', hp, hl, ha, hpo, hal, hinv⟩ := removeCharacterSeqs_eval test c ic ig iN b hw
+  rw [h'] at h
+  simp only [Option.some.injEq, Prod.mk.injEq] at h
+  obtain ⟨e1, _⟩ := h
+  subst e1
+  have hnil : ((pairs b).filter (fun p => !meets test c b.alphabet ic ig iN p.2) = []) ↔ b''.rows = [] := by
+    rw [← hp]; simp [pairs]
+  have hlen : b''.length = (if b''.rows = [] then -1 else b.length) := by
+    rw [hl]; by_cases e : b''.rows = []
+    · rw [if_pos e, if_pos (hnil.mpr e)]
+    · rw [if_neg e, if_neg (fun x => e (hnil.mp x))]
+  refine ⟨⟨hal, ?_, ?_⟩, hinv, ha, hpo, hlen⟩
+  · have : b''.rows.map (·.name) = (pairs b'').map Prod.fst := by simp [pairs, List.map_map, Function.comp_def]
+    rw [this, hp]
+    have hs : ((pairs b).filter (fun p => !meets test c b.alphabet ic ig iN p.2)).Sublist (pairs b) := List.filter_sublist
+    have : (pairs b).map Prod.fst = b.rows.map (·.name) := by simp [pairs, List.map_map, Function.comp_def]
+    exact (this ▸ hw.names_nodup).sublist (hs.map _)
+  · intro r hr
+    have hne : b''.rows ≠ [] := fun e => by rw [e] at hr; simp at hr
+    rw [hlen, if_neg hne]
+    have : (r.name, r.seq) ∈ pairs b'' := List.mem_map.mpr ⟨r, hr, rfl⟩
+    rw [hp] at this
+    obtain ⟨r0, hr0, e⟩ := List.mem_map.mp (List.mem_filter.mp this).1
+    have := hw.rect r0 hr0
+    simp only [Prod.mk.injEq] at e
+    rw [← e.2]; exact this
+
+/-- `RemoveGapSeqs(cutoff, ignoreNs)` is `RemoveCharacterSeqs('-', cutoff, false, false, ignoreNs)` -/
+def removeGapSeqs (test : Nat → Nat → Bool) (ignoreNs : Bool) (b : Bag) : Option (Bag × Nat) :=
+  removeCharacterSeqs test GAP false false ignoreNs b
+
+/-- **`RemoveGapSeqs` removes a sequence iff the number of its gaps, against the number of its
+characters that are not the N/X wildcard of the alignment's own alphabet (all characters without
+`ignoreNs`), meets the cutoff**; the other rows are kept in order, untouched. -/
+theorem gapSeq_removed_iff (test : Nat → Nat → Bool) (iN : Bool) (b b' : Bag) (k : Nat)
+    (hw : AlignWF b) (h : removeGapSeqs test iN b = some (b', k)) :
+    pairs b' = (pairs b).filter (fun p =>
+      !test (p.2.filter (· == GAP)).length
+            (p.2.filter fun x => !(iN && (x == (wildcard b.alphabet).1 || x == (wildcard b.alphabet).2))).length) ∧
+    k + b'.rows.length = b.rows.length := by
+  obtain ⟨h1, _, _, h4⟩ := seq_removed_iff test GAP false false iN b b' k hw h
+  refine ⟨?_, h4⟩
+  rw [h1]
+  apply List.filter_congr
+  intro p _
+  unfold meets
+  rw [seqCounts_spec]
+  simp
+
+/-! ## non-vacuity of the per-sequence theorems: three rows, exact cutoff 1/2 -/
+
+def demoAl : Bag := addAllIgnore (newAlign NUCLEOTIDS) [("a", [65, 45, 45, 45]), ("b", [65, 67, 71, 84]), ("c", [45, 45, 78, 78])]
+/-- cutoff 1/2 as an exact test: `nb ≥ total / 2` -/
+def half (nb total : Nat) : Bool := decide (2 * nb ≥ total)
+example : AlignWF demoAl := ⟨by decide, by decide, by decide⟩
+example : (removeGapSeqs half false demoAl).map (fun r => (pairs r.1, r.2)) = some ([("b", [65, 67, 71, 84])], 2) := by decide
+-- ignoring Ns changes the denominator: `-NNN` has 1 gap of 4 characters, but 1 gap of 1 counted character
+example : meets half GAP NUCLEOTIDS false false true [45, 78, 78, 78] = true ∧
+    meets half GAP NUCLEOTIDS false false false [45, 78, 78, 78] = false := by decide
 
 end Gv.Props.C12
